@@ -61,7 +61,7 @@ enum Outcome {
     OtherErr(String),
 }
 
-fn run_once(alg: &Alg, si: &SearchInstance, od: Od, reverse: bool, budget: u64, timed: bool) -> (Result<Outcome, Caught>, Ctx) {
+fn run_once(alg: &Alg, si: &SearchInstance, od: Od, reverse: bool, budget: crate::hooks::Budget, timed: bool) -> (Result<Outcome, Caught>, Ctx) {
     let sa = alg.build();
     let dir = if reverse { Direction::Reverse } else { Direction::Forward };
     let q = json!({});
@@ -382,7 +382,7 @@ fn runtime_case(
     si: &mut SearchInstance,
     od: Od,
     reverse: bool,
-    budget: u64,
+    budget: crate::hooks::Budget,
     replay_base: &Value,
     r0: &Option<(Vec<Vec<usize>>, Vec<Vec<(usize, usize, usize)>>)>,
     need_pops: u64,
